@@ -1,4 +1,5 @@
 import Chewing.Proofs.EditorSelect
+import Chewing.Proofs.EditorOpenList
 import Chewing.Props.C04
 import Chewing.Props.C01
 /-!
@@ -94,7 +95,7 @@ theorem page_item {α : Type} (cs : List α) (per p i : Nat) (hi : i < per) :
 /-! ## 2. The current page is below the page count -/
 
 /-- **every key event** keeps "current page < page count, or nothing listed" -/
-theorem page_in_range_key (hf : FlushKeepsLookups env) {e e' : Editor D L} {ev : KeyEvent} {b : KB}
+theorem page_or_empty_key (hf : FlushKeepsLookups env) {e e' : Editor D L} {ev : KeyEvent} {b : KB}
     (h : e.processKey env ev = .ok (e', b)) (hi : e.PageInv env) : e'.PageInv env :=
   processKey_pageInv env hf h hi
 
@@ -145,7 +146,7 @@ theorem revalidate_pageInv {e e' : Editor D L} (h : e.revalidate env = .ok e') :
 
 /-- **every operation keeps the invariant** — keys, choices, jumps, opening / closing, commit, reset, and
     (since the F32 repair) the option / layout / dictionary calls, also while a list is open -/
-theorem page_in_range_op (hf : FlushKeepsLookups env) (hca : ClearSylKeepsAlt env) {e e' : Editor D L} {op : Op L}
+theorem page_or_empty_op (hf : FlushKeepsLookups env) (hca : ClearSylKeepsAlt env) {e e' : Editor D L} {op : Op L}
     (h : e.apply env op = .ok e') (hi : e.PageInv env) : e'.PageInv env := by
   have closed : ∀ x : Editor D L, (∀ s, x.state ≠ .selecting s) → x.PageInv env := by
     intro x hx s hs; exact absurd hs (hx s)
@@ -243,16 +244,16 @@ theorem page_in_range_op (hf : FlushKeepsLookups env) (hca : ClearSylKeepsAlt en
     · cases h
   | unlearn k p => exact revalidate_pageInv env h
 
-/-- the full-strength claim: the page invariant survives every history -/
-def page_in_range_full : Prop :=
+/-- the escape-clause form for EVERY start state and environment: "current page < page count, or nothing
+    listed" survives every history (no reachability hypothesis: page 0 of an empty list satisfies it) -/
+def page_or_empty_anystate_full : Prop :=
   ∀ (D L : Type) (env : Env D L), FlushKeepsLookups env → ClearSylKeepsAlt env →
     ∀ (e e' : Editor D L) (ops : List (Op L)), e.PageInv env → e.run env ops = .ok e' → e'.PageInv env
 
-/-- **current page < page count (or nothing listed) in every state reached by ANY history** of keys,
-    choices, jumps, opening / closing, commit, reset, option / layout / engine / dictionary calls — made
-    while a list is open or not (before the F32 repair: `page_in_range_partial`, histories without such a
-    call under an open list, and `page_in_range_refuted`) -/
-theorem page_in_range : page_in_range_full := by
+/-- **current page < page count, or nothing listed, in every state reached by ANY history from ANY state**
+    satisfying it, for every environment (the former `page_in_range`; the statement without the escape clause,
+    from reachable states, is `page_in_range` / `open_list_on_a_page` below) -/
+theorem page_or_empty_anystate : page_or_empty_anystate_full := by
   intro D L env hf hca e e' ops
   induction ops generalizing e with
   | nil => intro hi h; simp only [Editor.run] at h; injection h with h; subst h; exact hi
@@ -262,7 +263,7 @@ theorem page_in_range : page_in_range_full := by
     cases hr : e.apply env op with
     | ok e1 =>
       rw [hr] at h; simp only at h
-      exact ih e1 (page_in_range_op env hf hca hr hi) h
+      exact ih e1 (page_or_empty_op env hf hca hr hi) h
     | panic p => rw [hr] at h; cases h
     | outOfFuel => rw [hr] at h; cases h
 
@@ -339,7 +340,7 @@ theorem f32_history_repaired :
       Selecting.totalPage f32Env s e'.shared = .ok 1 ∧
       CApi.enumerate f32Env e' = .ok [[28204], [31574]] ∧ e'.PageInv f32Env := by
   refine ⟨_, _, rfl, rfl, rfl, rfl, rfl, ?_⟩
-  exact page_in_range Unit Nat f32Env (fun _ _ _ => rfl) (fun _ _ => rfl) f32Start _ f32Ops (page_inv_init f32Env _) rfl
+  exact page_or_empty_anystate Unit Nat f32Env (fun _ _ _ => rfl) (fun _ _ => rfl) f32Start _ f32Ops (page_inv_init f32Env _) rfl
 
 /-- a dictionary that holds one two-syllable user phrase (besides a word per syllable) until it is removed -/
 def f32EnvB : Env Bool Nat where
@@ -374,34 +375,226 @@ theorem f32_empty_list_closed :
       e'.shared.com.cursor = 2 ∧ e'.shared.com.stack = [] :=
   ⟨_, _, _, rfl, rfl, rfl, rfl, rfl, rfl, rfl⟩
 
-/-! ### known finding FX1 (found on the C API by `capi_props`): a list over an EMPTY symbol table is opened
+/-! ### FX1 (repaired; found on the C API by `capi_props`): a list over an EMPTY symbol table was opened
 
 `chewing_new2` over a data directory without `symbols.dat` loads an empty symbol table; grave, Ctrl-0/1 and Down on a
-character without special symbols (`new_symbol` / the fall-back of `new_special_symbol`) open the symbol list
-nevertheless: an open list with 0 candidates, 0 pages, page 0.  `page_in_range` above is the `_partial` form — its
-invariant `PageOk` reads "page below the page count OR nothing listed", and "nothing listed" is exactly this class
-(phrase lists without candidates are not opened / are closed since the F02/F03 and F32 repairs). -/
+character without special symbols (`new_symbol` / the fall-back of `new_special_symbol`) used to open the symbol list
+nevertheless: an open list with 0 candidates, 0 pages, page 0.  Since `fix: a symbol list without entries is not
+opened` such a request is ignored (and choosing a category whose sub-table is empty closes the list), so the escape
+clause "or nothing listed" of the page invariant is no longer needed: **`page_in_range`** below is the statement
+without it.  What it needs instead is where the range of a phrase list comes from (`Down` / `Space` cycling, `j` /
+`k`, the four jumps only stop on a range with a phrase or on the one they started from; `jump_to_first_selection_point`
+re-initialises from the anchor inside the current range): C01's reachable-state invariant in its exclusion-free
+strength (`C01.SafeInv`, kept by every valid operation: `C01_step`) — proofs in `Proofs/EditorOpenList.lean`,
+`Proofs/PhraseSelHas.lean`. -/
+
+theorem leaveIfEmpty_selecting (x : Editor D L) {s : Selecting}
+    (h : (Editor.leaveIfEmpty env x).state = .selecting s) : x.state = .selecting s := by
+  unfold Editor.leaveIfEmpty at h
+  split at h
+  · cases h
+  · exact h
+
+theorem setOptions_selecting (e : Editor D L) (o : Options) {s : Selecting}
+    (h : (Editor.setOptions env e o).state = .selecting s) : e.state = .selecting s := by
+  unfold Editor.setOptions at h
+  have h2 := leaveIfEmpty_selecting env _ h
+  exact h2
+
+theorem setLayout_selecting (e : Editor D L) (l : L) {s : Selecting}
+    (h : (Editor.setLayout env e l).state = .selecting s) : e.state = .selecting s := by
+  unfold Editor.setLayout at h
+  have h2 := leaveIfEmpty_selecting env _ h
+  exact h2
+
+/-- `revalidate_selecting` establishes the strict invariant -/
+theorem revalidate_listInv {e e' : Editor D L} (h : e.revalidate env = .ok e')
+    (hw : ∀ s, e.state = .selecting s → SelWithin s) : e'.ListInv env := by
+  intro s hs
+  obtain ⟨tp', ht', hlt⟩ := revalidate_in_range env h s hs
+  refine ⟨fun tp ht => by rw [ht] at ht'; injection ht' with ht'; subst ht'; exact hlt, ?_⟩
+  unfold Editor.revalidate at h
+  split at h
+  · rename_i s0 hs0
+    split at h
+    · split at h
+      · injection h with h; subst h; cases hs
+      · split at h
+        · injection h with h; subst h
+          injection hs with hs; subst hs
+          exact hw s0 hs0
+        · injection h with h; subst h
+          rw [hs0] at hs; injection hs with hs; subst hs
+          exact hw s0 hs0
+    · cases h
+    · cases h
+  · rename_i hns
+    injection h with h; subst h
+    exact absurd hs (hns s)
+
+/-- **every operation keeps the strict invariant** (from a state satisfying C01's safety invariant) — keys in all
+    four states, choices, the four jumps, opening / closing, commit, reset, and the option / layout / engine /
+    dictionary calls, also while a list is open -/
+theorem page_in_range_op {G : D → Prop} (hf : FlushKeepsLookups env) (hca : ClearSylKeepsAlt env) {e e' : Editor D L}
+    {op : Op L} (hinv : C01.SafeInv env G e)
+    (h : e.apply env op = .ok e') (hi : e.ListInv env) : e'.ListInv env := by
+  have closed : ∀ x : Editor D L, (∀ s, x.state ≠ .selecting s) → x.ListInv env := by
+    intro x hx s hs; exact absurd hs (hx s)
+  cases op with
+  | key ev =>
+    simp only [Editor.apply] at h
+    cases hr : e.processKey env ev with
+    | ok x => rw [hr] at h; simp only [Outcome.map] at h; injection h with h; subst h
+              exact processKey_listInv env hf hinv hr hi
+    | panic p => rw [hr] at h; simp [Outcome.map] at h
+    | outOfFuel => rw [hr] at h; simp [Outcome.map] at h
+  | select n =>
+    simp only [Editor.apply] at h
+    cases hr : e.select env n with
+    | ok x => rw [hr] at h; simp only [Outcome.map] at h; injection h with h; subst h
+              exact select_listInv env hr hi
+    | panic p => rw [hr] at h; simp [Outcome.map] at h
+    | outOfFuel => rw [hr] at h; simp [Outcome.map] at h
+  | startSelecting =>
+    simp only [Editor.apply] at h
+    cases hr : e.startSelecting env with
+    | ok x => rw [hr] at h; simp only [Outcome.map] at h; injection h with h; subst h
+              exact startSelecting_listInv env hr hi
+    | panic p => rw [hr] at h; simp [Outcome.map] at h
+    | outOfFuel => rw [hr] at h; simp [Outcome.map] at h
+  | jump w =>
+    simp only [Editor.apply] at h
+    cases hr : e.jump env w with
+    | ok x => rw [hr] at h; simp only [Outcome.map] at h; injection h with h; subst h
+              exact jump_listInv env hinv hr hi
+    | panic p => rw [hr] at h; simp [Outcome.map] at h
+    | outOfFuel => rw [hr] at h; simp [Outcome.map] at h
+  | cancelSelecting =>
+    simp only [Editor.apply] at h; injection h with h; subst h
+    unfold Editor.cancelSelecting
+    split
+    · exact closed _ (by intro s hs; cases hs)
+    · exact hi
+  | commit =>
+    simp only [Editor.apply] at h
+    unfold Editor.commit at h
+    split at h
+    · simp only [Outcome.map] at h; injection h with h; subst h; exact hi
+    · rename_i hc
+      have hent : e.state = .entering := by
+        simp only [Bool.or_eq_true, not_or, bne_iff_ne, ne_eq, Decidable.not_not] at hc
+        exact hc.1
+      split at h
+      · simp only [Outcome.map] at h; injection h with h; subst h
+        exact closed _ (by intro s hs; simp only [hent] at hs; cases hs)
+      · simp [Outcome.map] at h
+      · simp [Outcome.map] at h
+  | clear => simp only [Editor.apply] at h; injection h with h; subst h; exact closed _ (by intro s hs; cases hs)
+  | ack =>
+    simp only [Editor.apply] at h; injection h with h; subst h
+    intro s hs
+    exact ⟨listOk_congr env (sameList_of_fields env rfl rfl rfl) (hi s hs).1, (hi s hs).2⟩
+  | setEngine k =>
+    simp only [Editor.apply] at h; injection h with h; subst h
+    intro s hs
+    exact ⟨listOk_congr env (sameList_of_fields env rfl rfl rfl) (hi s hs).1, (hi s hs).2⟩
+  | clearSyl =>
+    simp only [Editor.apply] at h; injection h with h; subst h
+    intro s hs
+    have hst : e.state = .selecting s := by
+      unfold Editor.clearSyllableEditor Editor.leaveIfEmpty at hs
+      split at hs
+      · cases hs
+      · exact hs
+    have hsh : (Editor.clearSyllableEditor env e).shared = { e.shared with syl := env.clearSyl e.shared.syl } := by
+      unfold Editor.clearSyllableEditor Editor.leaveIfEmpty; split <;> rfl
+    rw [hsh]
+    have hcand : Selecting.candidates env s { e.shared with syl := env.clearSyl e.shared.syl } =
+        Selecting.candidates env s e.shared := by
+      unfold Selecting.candidates
+      cases s.sel with
+      | phrase p =>
+        have hca' : ∀ l c, env.altSyllables (env.clearSyl l) c = env.altSyllables l c := hca
+        simp only; unfold PhraseSel.candidates; simp only [hca']
+      | symbol y => rfl
+      | special sym => rfl
+    refine ⟨?_, (hi s hst).2⟩
+    intro tp ht
+    have ht' : Selecting.totalPage env s e.shared = .ok tp := by
+      unfold Selecting.totalPage at ht ⊢; rw [hcand] at ht; exact ht
+    exact (hi s hst).1 tp ht'
+  | setOptions o =>
+    simp only [Editor.apply] at h
+    exact revalidate_listInv env h (fun s hs => (hi s (setOptions_selecting env e o hs)).2)
+  | setLayout l =>
+    simp only [Editor.apply] at h
+    exact revalidate_listInv env h (fun s hs => (hi s (setLayout_selecting env e l hs)).2)
+  | learn k p =>
+    simp only [Editor.apply] at h
+    split at h
+    · exact revalidate_listInv env h (fun s hs => (hi s hs).2)
+    · cases h
+    · cases h
+  | unlearn k p =>
+    simp only [Editor.apply] at h
+    exact revalidate_listInv env h (fun s hs => (hi s hs).2)
+
+/-- the full-strength claim of "the current page index is below the page count": the strict invariant survives
+    every history of valid operations from a state satisfying C01's safety invariant -/
+def page_in_range_full : Prop :=
+  ∀ (D L : Type) (env : Env D L) (G : D → Prop), C01.EnvOK env G → FlushKeepsLookups env → ClearSylKeepsAlt env →
+    ∀ (e e' : Editor D L) (ops : List (Op L)), C01.SafeInv env G e → e.ListInv env → (∀ op ∈ ops, C01.OpValid op) →
+      e.run env ops = .ok e' → e'.ListInv env ∧ C01.SafeInv env G e'
+
+/-- **current page < page count — no "or nothing listed" — in every state reached by ANY history** of keys,
+    choices, jumps, opening / closing, commit, reset, option / layout / engine / dictionary calls, made while a
+    list is open or not, from a state satisfying C01's safety invariant (a fresh editor does: `C01.initial_safe`,
+    `list_inv_init`).  Before the FX1 repair this held only with the escape clause (`page_or_empty_anystate`). -/
+theorem page_in_range : page_in_range_full := by
+  intro D L env G hE hf hca e e' ops
+  induction ops generalizing e with
+  | nil => intro hs hi _ h; simp only [Editor.run] at h; injection h with h; subst h; exact ⟨hi, hs⟩
+  | cons op ops ih =>
+    intro hs hi hv h
+    simp only [Editor.run] at h
+    obtain ⟨e1, h1, hs1⟩ := C01.C01_step hE e op hs (hv op (List.mem_cons_self ..))
+    rw [h1] at h; simp only at h
+    exact ih e1 hs1 (page_in_range_op env hf hca hs h1 hi) (fun o ho => hv o (List.mem_cons_of_mem _ ho)) h
+
+/-- a freshly created editor satisfies the strict invariant (no list open) -/
+theorem list_inv_init (sh : Shared D L) : Editor.ListInv env { shared := sh, state := .entering } := by
+  intro s hs; cases hs
 
 /-- no symbol table (the default `symSel := {}`), empty buffers -/
 def fx1Start : Editor Unit Nat := { shared := { syl := 0, dict := () } }
 /-- the grave key -/
 def fx1Ops : List (Op Nat) := [.key { index := 14, code := KC.grave, unicode := 96 }]
 
-/-- the statement's claim without "or nothing listed": an open list is on a page below its page count -/
+/-- the statement's claim: **every open list, of every kind, after every history, lists something and is on a
+    page strictly below its page count** (the getters answer: no panic) -/
 def open_list_on_a_page_full : Prop :=
-  ∀ (D L : Type) (env : Env D L), FlushKeepsLookups env → ClearSylKeepsAlt env →
-    ∀ (e e' : Editor D L) (ops : List (Op L)) (s : Selecting), e.PageInv env →
-      e.run env ops = .ok e' → e'.state = .selecting s →
-      ∃ tp, Selecting.totalPage env s e'.shared = .ok tp ∧ s.pageNo < tp
+  ∀ (D L : Type) (env : Env D L) (G : D → Prop), C01.EnvOK env G → FlushKeepsLookups env → ClearSylKeepsAlt env →
+    ∀ (e e' : Editor D L) (ops : List (Op L)) (s : Selecting), C01.SafeInv env G e → e.ListInv env →
+      (∀ op ∈ ops, C01.OpValid op) → e.run env ops = .ok e' → e'.state = .selecting s →
+      ∃ tp cs, Selecting.totalPage env s e'.shared = .ok tp ∧ s.pageNo < tp ∧
+        Selecting.candidates env s e'.shared = .ok cs ∧ cs ≠ []
 
-/-- **FX1**: with an empty symbol table the grave key opens a list of 0 pages (current page 0 is not below it) -/
-theorem open_list_on_a_page_refuted : ¬ open_list_on_a_page_full := by
-  intro h
-  obtain ⟨tp, h1, h2⟩ := h Unit Nat f32Env (fun _ _ _ => rfl) (fun _ _ => rfl) fx1Start _ fx1Ops _
-    (page_inv_init f32Env _) rfl rfl
-  have h0 : (Outcome.ok 0 : Outcome Nat) = Outcome.ok tp := h1
-  have : tp = 0 := by injection h0 with h0; exact h0.symm
-  omega
+/-- **FX1 repaired — the full theorem** (was `open_list_on_a_page_refuted`) -/
+theorem open_list_on_a_page : open_list_on_a_page_full := by
+  intro D L env G hE hf hca e e' ops s hs hi hv hrun hst
+  obtain ⟨hl, hs'⟩ := page_in_range D L env G hE hf hca e e' ops hs hi hv hrun
+  have hsel : C01.SelInv env False e'.shared s := by
+    have := hs'.st; rw [hst] at this; exact this
+  obtain ⟨tp, ht, _⟩ := C01.totalPage_ok hE hs'.sh hsel
+  obtain ⟨cs, hc, hper, _⟩ := totalPage_ok env ht
+  exact ⟨tp, cs, ht, (hl s hst).1 tp ht, hc, listOk_nonempty env (hl s hst).1 hc hper⟩
+
+/-- **the former FX1 witness, evaluated**: with an empty symbol table the grave key is ignored — no list is
+    opened, nothing changes but the reported behaviour -/
+theorem fx1_history_repaired :
+    ∃ e' : Editor Unit Nat, fx1Start.run f32Env fx1Ops = .ok e' ∧ e'.state = .entering ∧
+      e'.shared.last = .ignore ∧ e'.shared.com = fx1Start.shared.com ∧ e'.ListInv f32Env :=
+  ⟨_, rfl, rfl, rfl, rfl, fun s hs => by cases hs⟩
 
 /-! ## 3. Choosing -/
 
@@ -529,21 +722,29 @@ theorem choose_special {s : Selecting} {sh : Shared D L} {sym0 : Sym} {cs : List
       Selecting.select env s sh n = placeSymbol s sh (.chr ch) := Chewing.choose_special env hsel hm hin
 
 /-- **symbol table**, inside a category: the listed character is placed; at the top level a plain
-    entry places its first character and a category with a sub-table opens it on page 0 with the
-    buffer untouched -/
+    entry places its first character, a category with a sub-table that holds symbols opens it on page 0 with
+    the buffer untouched, and (FX1 repair) a category WITHOUT symbols closes the list: nothing is inserted, the
+    saved cursor is restored -/
 theorem choose_symbol {s : Selecting} {sh : Shared D L} {y : SymSel} {n : Nat} (hsel : s.sel = .symbol y) :
     (∀ c row, y.cursor = some c → y.table[c]? = some row → Selecting.offset s sh n < row.length →
       Selecting.candidates env s sh = .ok (row.map fun ch => [ch]) ∧
       Selecting.select env s sh n =
         (placeSymbol s sh (.chr (row[Selecting.offset s sh n]?.getD 0))).map
           fun (_, sh', t) => ({ s with sel := .symbol { y with cursor := none } }, sh', t)) ∧
-    (∀ name idx, y.cursor = none → y.category[Selecting.offset s sh n]? = some (name, some idx) →
+    (∀ name idx row, y.cursor = none → y.category[Selecting.offset s sh n]? = some (name, some idx) →
+      y.table[idx % 256]? = some row → row ≠ [] →
       Selecting.select env s sh n =
         .ok ({ s with sel := .symbol { y with cursor := some (idx % 256) }, pageNo := 0 }, sh, .spin .absorb)) ∧
+    (∀ name idx, y.cursor = none → y.category[Selecting.offset s sh n]? = some (name, some idx) →
+      y.table[idx % 256]? = some [] →
+      Selecting.select env s sh n =
+        .ok ({ s with sel := .symbol { y with cursor := some (idx % 256) }, pageNo := 0 },
+             Shared.cancelSelecting sh, .toState .entering)) ∧
     (∀ name ch, y.cursor = none → y.category[Selecting.offset s sh n]? = some (name, none) → name.head? = some ch →
       Selecting.select env s sh n =
         (placeSymbol s sh (.chr ch)).map fun (_, sh', t) => ({ s with sel := .symbol { y with cursor := none } }, sh', t)) := by
-  refine ⟨?_, fun name idx hcur hcat => choose_symbol_descend env hsel hcur hcat,
+  refine ⟨?_, fun name idx row hcur hcat hrow hne => choose_symbol_descend env hsel hcur hcat hrow hne,
+    fun name idx hcur hcat hrow => choose_symbol_empty_category env hsel hcur hcat hrow,
     fun name ch hcur hcat hch => choose_symbol_plain env hsel hcur hcat hch⟩
   intro c row hcur hrow hin
   have := choose_symbol_leaf env hsel hcur hrow hin
@@ -738,74 +939,14 @@ theorem rangeHasPhrase_range (s : PhraseSel) (d : D) (b e x y : Nat) :
 
 /-- the shrinking loop of `PhraseSelector::init` stops at the FIRST range that has a phrase: choosing
     forward it keeps the beginning and every longer range up to the initial end has none; choosing rearward
-    it keeps the end and every longer range down to the initial beginning has none -/
+    it keeps the end and every longer range down to the initial beginning has none
+    (proof in `Proofs/EditorOpenList.lean`) -/
 theorem initLoop_longest (d : D) : ∀ (fuel : Nat) (s s' : PhraseSel), PhraseSel.initLoop env s d fuel = .ok s' →
     (s.forward = true → s'.begin_ = s.begin_ ∧
       ∀ e', s'.end_ < e' → e' ≤ s.end_ → PhraseSel.rangeHasPhrase env s d s.begin_ e' = .ok false) ∧
     (s.forward = false → s'.end_ = s.end_ ∧
-      ∀ b', s.begin_ ≤ b' → b' < s'.begin_ → PhraseSel.rangeHasPhrase env s d b' s.end_ = .ok false) := by
-  intro fuel
-  induction fuel with
-  | zero => intro s s' h; simp [PhraseSel.initLoop] at h
-  | succ fuel ih =>
-    intro s s' h
-    unfold PhraseSel.initLoop at h
-    split at h
-    · cases h
-    · split at h
-      · cases h
-      · split at h
-        · cases h
-        · rename_i h1 h2 h3
-          have hne : s.begin_ ≠ s.end_ := by simpa using h3
-          split at h
-          · injection h with h; subst h
-            exact ⟨fun _ => ⟨rfl, fun e' a b => by omega⟩, fun _ => ⟨rfl, fun b' a b => by omega⟩⟩
-          · rename_i hfalse
-            have hstop : Outcome.ok s = Outcome.ok s' →
-                (s.forward = true → s'.begin_ = s.begin_ ∧
-                  ∀ e', s'.end_ < e' → e' ≤ s.end_ → PhraseSel.rangeHasPhrase env s d s.begin_ e' = .ok false) ∧
-                (s.forward = false → s'.end_ = s.end_ ∧
-                  ∀ b', s.begin_ ≤ b' → b' < s'.begin_ → PhraseSel.rangeHasPhrase env s d b' s.end_ = .ok false) := by
-              intro h; injection h with h; subst h
-              exact ⟨fun _ => ⟨rfl, fun e' a b => by omega⟩, fun _ => ⟨rfl, fun b' a b => by omega⟩⟩
-            have hrec : (if s.forward = true then PhraseSel.initLoop env { s with end_ := s.end_ - 1 } d fuel
-                else PhraseSel.initLoop env { s with begin_ := s.begin_ + 1 } d fuel) = .ok s' →
-                (s.forward = true → s'.begin_ = s.begin_ ∧
-                  ∀ e', s'.end_ < e' → e' ≤ s.end_ → PhraseSel.rangeHasPhrase env s d s.begin_ e' = .ok false) ∧
-                (s.forward = false → s'.end_ = s.end_ ∧
-                  ∀ b', s.begin_ ≤ b' → b' < s'.begin_ → PhraseSel.rangeHasPhrase env s d b' s.end_ = .ok false) := by
-              intro h
-              split at h
-              · rename_i hfw
-                obtain ⟨ihf, _⟩ := ih _ _ h
-                obtain ⟨hb, hall⟩ := ihf hfw
-                refine ⟨fun _ => ⟨hb, ?_⟩, fun hh => by rw [hfw] at hh; cases hh⟩
-                intro e' a b
-                rcases Nat.lt_or_ge e' s.end_ with hlt | hge
-                · exact hall e' a (by show e' ≤ s.end_ - 1; omega)
-                · have : e' = s.end_ := by omega
-                  subst this; exact hfalse
-              · rename_i hfw
-                have hfw' : s.forward = false := by cases hx : s.forward <;> simp_all
-                obtain ⟨_, ihr⟩ := ih _ _ h
-                obtain ⟨he, hall⟩ := ihr hfw'
-                refine ⟨fun hh => absurd hh hfw, fun _ => ⟨he, ?_⟩⟩
-                intro b' a b
-                rcases Nat.lt_or_ge s.begin_ b' with hlt | hge
-                · exact hall b' (by show s.begin_ + 1 ≤ b'; omega) b
-                · have : b' = s.begin_ := by omega
-                  subst this; exact hfalse
-            -- the early exit (a syllable without a word keeps its one-syllable range): nothing was shrunk
-            split at h
-            · split at h
-              · exact hstop h
-              · exact hrec h
-            · split at h
-              · exact hstop h
-              · exact hrec h
-          · cases h
-          · cases h
+      ∀ b', s.begin_ ≤ b' → b' < s'.begin_ → PhraseSel.rangeHasPhrase env s d b' s.end_ = .ok false) :=
+  _root_.Chewing.initLoop_longest env d
 
 /-- **the range a phrase list is opened with** (Down / Space / `chewing_cand_open`, `j` / `k`,
     `chewing_cand_list_first`: `PhraseSelector::init`) **is the longest one at the cursor that has a
@@ -818,57 +959,8 @@ theorem opened_range_longest {fw : Bool} {st : Strategy} {com : Composition} {cu
     (fw = true → p.begin_ = (if cur == com.len then cur - 1 else cur) ∧
       ∀ e', p.end_ < e' → e' ≤ p.nextBreakPoint cur → PhraseSel.rangeHasPhrase env p d p.begin_ e' = .ok false) ∧
     (fw = false → p.end_ = min (cur + 1) com.len ∧
-      ∀ b', p.afterPreviousBreakPoint cur ≤ b' → b' < p.begin_ → PhraseSel.rangeHasPhrase env p d b' p.end_ = .ok false) := by
-  unfold PhraseSel.init at h
-  simp only at h
-  split at h
-  · rename_i hfw
-    split at h
-    · cases h
-    · obtain ⟨_, _, hcom, hstr, _, _, _⟩ := initLoop_ok env d _ _ _ h
-      obtain ⟨hf, _⟩ := initLoop_longest env d _ _ _ h
-      obtain ⟨hb, hall⟩ := hf hfw
-      refine ⟨fun _ => ⟨hb, ?_⟩, fun hh => by rw [hfw] at hh; cases hh⟩
-      intro e' a b
-      have key : ∀ (q : PhraseSel), q.com = com → q.strategy = st → ∀ x y, PhraseSel.rangeHasPhrase env q d x y =
-          PhraseSel.rangeHasPhrase env { begin_ := 0, end_ := com.len, forward := fw, orig := cur, strategy := st, com := com } d x y := by
-        intro q hq1 hq2 x y; unfold PhraseSel.rangeHasPhrase; rw [hq1, hq2]
-      have hnb : ∀ (q : PhraseSel), q.com = com → ∀ c, q.nextBreakPoint c =
-          PhraseSel.nextBreakPoint { begin_ := 0, end_ := com.len, forward := fw, orig := cur, strategy := st, com := com } c := by
-        intro q hq c
-        have : ∀ fuel c, PhraseSel.nextBreakPoint.go q fuel c =
-            PhraseSel.nextBreakPoint.go { begin_ := 0, end_ := com.len, forward := fw, orig := cur, strategy := st, com := com } fuel c := by
-          intro fuel; induction fuel with
-          | zero => intro c; rfl
-          | succ f ih => intro c; simp only [PhraseSel.nextBreakPoint.go, hq, ih]
-        unfold PhraseSel.nextBreakPoint; rw [this, hq]
-      rw [key p hcom hstr, hb]
-      have := hall e' a (by rw [hnb p hcom] at b; exact b)
-      rw [key _ rfl rfl] at this
-      exact this
-  · rename_i hfw
-    have hfw' : fw = false := by cases fw <;> simp_all
-    obtain ⟨_, _, hcom, hstr, _, _, _⟩ := initLoop_ok env d _ _ _ h
-    obtain ⟨_, hr⟩ := initLoop_longest env d _ _ _ h
-    obtain ⟨he, hall⟩ := hr hfw'
-    refine ⟨(fun hh => by rw [hfw'] at hh; cases hh), fun _ => ⟨he, ?_⟩⟩
-    intro b' a b
-    have key : ∀ (q : PhraseSel), q.com = com → q.strategy = st → ∀ x y, PhraseSel.rangeHasPhrase env q d x y =
-        PhraseSel.rangeHasPhrase env { begin_ := 0, end_ := com.len, forward := fw, orig := cur, strategy := st, com := com } d x y := by
-      intro q hq1 hq2 x y; unfold PhraseSel.rangeHasPhrase; rw [hq1, hq2]
-    have hap : ∀ (q : PhraseSel), q.com = com → ∀ c, q.afterPreviousBreakPoint c =
-        PhraseSel.afterPreviousBreakPoint { begin_ := 0, end_ := com.len, forward := fw, orig := cur, strategy := st, com := com } c := by
-      intro q hq c
-      have : ∀ fuel c, PhraseSel.afterPreviousBreakPoint.go q fuel c =
-          PhraseSel.afterPreviousBreakPoint.go { begin_ := 0, end_ := com.len, forward := fw, orig := cur, strategy := st, com := com } fuel c := by
-        intro fuel; induction fuel with
-        | zero => intro c; rfl
-        | succ f ih => intro c; simp only [PhraseSel.afterPreviousBreakPoint.go, hq, ih]
-      unfold PhraseSel.afterPreviousBreakPoint; rw [this]
-    rw [key p hcom hstr, he]
-    have := hall b' (by rw [hap p hcom] at a; exact a) b
-    rw [key _ rfl rfl] at this
-    exact this
+      ∀ b', p.afterPreviousBreakPoint cur ≤ b' → b' < p.begin_ → PhraseSel.rangeHasPhrase env p d b' p.end_ = .ok false) :=
+  _root_.Chewing.opened_range_longest env h
 
 /-! ## non-vacuity -/
 
@@ -877,7 +969,19 @@ example : ∃ (e' : Editor Unit Nat) (s : Selecting),
     f32Start.run f32Env (f32Ops.take 2) = .ok e' ∧ e'.state = .selecting s ∧ s.pageNo = 1 ∧
     Selecting.totalPage f32Env s e'.shared = .ok 2 ∧ e'.PageInv f32Env := by
   refine ⟨_, _, rfl, rfl, rfl, rfl, ?_⟩
-  exact page_in_range Unit Nat f32Env (fun _ _ _ => rfl) (fun _ _ => rfl) f32Start _ (f32Ops.take 2) (page_inv_init f32Env _) rfl
+  exact page_or_empty_anystate Unit Nat f32Env (fun _ _ _ => rfl) (fun _ _ => rfl) f32Start _ (f32Ops.take 2) (page_inv_init f32Env _) rfl
+
+/-- `open_list_on_a_page` is not vacuous: C01's toy environment satisfies every hypothesis, the fresh editor both
+    invariants, and the history "type syllable 3, Down" ends with an open list — of one candidate, on page 0 of 1 -/
+example : ∃ (e' : Editor (List Nat) Nat) (s : Selecting),
+    (C01.stdEditor [3]).run C01.toyEnv [.key C01.keyJ, .key C01.keyJ, .key C01.keyDown] = .ok e' ∧
+    e'.state = .selecting s ∧
+    ∃ tp cs, Selecting.totalPage C01.toyEnv s e'.shared = .ok tp ∧ s.pageNo < tp ∧
+      Selecting.candidates C01.toyEnv s e'.shared = .ok cs ∧ cs ≠ [] := by
+  refine ⟨_, _, rfl, rfl, ?_⟩
+  exact open_list_on_a_page _ _ C01.toyEnv _ C01.toyEnv_ok (fun _ _ _ => rfl) (fun _ _ => rfl) (C01.stdEditor [3]) _
+    [.key C01.keyJ, .key C01.keyJ, .key C01.keyDown] _ (C01.stdEditor_inv [3]) (list_inv_init C01.toyEnv _)
+    (by intro op _; cases op <;> trivial) rfl rfl
 
 /-- choosing index 0 on page 1 (per page 1) of that list places the second word -/
 example : ∃ (e1 : Editor Unit Nat) (s : Selecting) (x : Selecting × Shared Unit Nat × Trans),
